@@ -211,6 +211,7 @@ class Contract:
     external: bool = False  # trusted contract of a function that has no source in the repository: signature = `params` (in order) and `returns`
     externals: list[str] = field(default_factory=list)  # root names (modules / handles of external libraries) whose attribute / call chains are opaque values
     ghost_effects: list[dict[str, Any]] = field(default_factory=list)  # trusted effects of external statements on ghost state: {"after": "<statement text prefix>", "modifies": [...], "ensures": {...}}
+    atomic_raises: bool = False  # a declared exception leaves every field in `modifies` unchanged (an obligation when verified, an assumption at call sites)
     static: bool = False  # a @staticmethod: `obj.name(args)` does not pass obj
     is_property: bool = False  # a @property getter: `obj.name` in code and clauses denotes a call of this contract
 
@@ -1019,8 +1020,8 @@ class Engine:
              forall p in range(len(xs)): k(xs[p]) in d                (and d[k] is v of the *last* such p)
              forall key in d: some position p produced it             (witness function)
         Supported when the generator has one clause and no filter."""
-        if len(n.generators) != 1 or n.generators[0].ifs:
-            raise Unsupported("dict comprehension with filter / several generators", n)
+        if len(n.generators) != 1:
+            raise Unsupported("dict comprehension with several generators", n)
         gen = n.generators[0]
         k = self.site()
         xs = self.as_seq(self.expr(gen.iter, st), st)
@@ -1036,6 +1037,9 @@ class Engine:
         st2.pc.append(inb)
         saved = self.pending_raises
         self.pending_raises = []
+        dconds = [self.truthy(self.expr(c, st2)) for c in gen.ifs]
+        st2.pc += dconds
+        dcond = z3.And(*dconds) if dconds else z3.BoolVal(True)
         kv = self.expr(n.key, st2)
         vv = self.expr(n.value, st2)
         inner = self.pending_raises
@@ -1055,10 +1059,11 @@ class Engine:
         key_at = lambda i: z3.substitute(kv.t, (bv, i))  # noqa: E731
         val_at = lambda i: z3.substitute(vv.t, (bv, i))  # noqa: E731
         x = z3.Const(f"dk${k}", self.sort(ty.key))
-        self.assume(st, z3.ForAll([bv], z3.Implies(inb, has(d.t, kv.t)), patterns=[self.seq_idx(xs, bv).t]))
-        self.assume(st, z3.ForAll([x], z3.Implies(has(d.t, x), z3.And(0 <= last(x), last(x) < self.seq_len(xs), key_at(last(x)) == x,
+        cond_at = lambda i: z3.substitute(dcond, (bv, i))  # noqa: E731
+        self.assume(st, z3.ForAll([bv], z3.Implies(z3.And(inb, dcond), has(d.t, kv.t)), patterns=[self.seq_idx(xs, bv).t]))
+        self.assume(st, z3.ForAll([x], z3.Implies(has(d.t, x), z3.And(0 <= last(x), last(x) < self.seq_len(xs), cond_at(last(x)), key_at(last(x)) == x,
                                                                     get(d.t, x) == val_at(last(x)))), patterns=[has(d.t, x)]))
-        self.assume(st, z3.ForAll([bv], z3.Implies(inb, bv <= last(kv.t)), patterns=[self.seq_idx(xs, bv).t]))
+        self.assume(st, z3.ForAll([bv], z3.Implies(z3.And(inb, dcond), bv <= last(kv.t)), patterns=[self.seq_idx(xs, bv).t]))
         self.trusted_used.add("dict comprehension: keys are exactly the produced keys, the last producer wins; insertion order of keys is left unspecified")
         return d
 
@@ -1326,6 +1331,13 @@ class Engine:
         return any(self.mentions(t, c) for c in cs)
 
     def comprehension(self, n: ast.ListComp | ast.GeneratorExp, st: State) -> V:
+        self.in_comprehension += 1
+        try:
+            return self._comprehension(n, st)
+        finally:
+            self.in_comprehension -= 1
+
+    def _comprehension(self, n: ast.ListComp | ast.GeneratorExp, st: State) -> V:
         """[f(x) for x in xs] -> fresh sequence r with len(r) == len(xs) and r[i] == f(xs[i]).
         A single generator without filter maps elementwise; a filter gives an
         opaque subsequence characterised by the filter axioms."""
@@ -1655,6 +1667,9 @@ class Engine:
                 return V(self.pre.struct_mk(sty, [kws[f].t for f in sty.fields]), sty)
             if name in self.contracts:
                 return self.call_contract(self.contracts[name], n, st, None)
+            helper = self.find_inlinable(name)
+            if helper is not None:
+                return self.inline_helper(helper, n, st)
             raise Unsupported(f"call of {name} (no contract)", n)
         if isinstance(f, ast.Attribute):
             # module-qualified builtins e.g. datetime.fromtimestamp
@@ -1672,7 +1687,11 @@ class Engine:
             raise Unsupported(f"method {key}", n)
         raise Unsupported("call form", n)
 
+    in_comprehension = 0
+
     def construct_by_fields(self, rec: RecTy, n: ast.Call, st: State) -> V:
+        if self.in_comprehension:
+            raise Unsupported(f"construction of a {rec.name} object inside a comprehension (declare the class as a value struct or use a loop)", n)
         """`Cls(field=value, ...)` for a plain data record (ORM / pydantic model): a fresh reference whose listed fields hold the
         given values (trusted: the constructor stores its keyword arguments; validators are not modelled)."""
         if self.mode_spec or n.args:
@@ -1703,6 +1722,11 @@ class Engine:
                                           patterns=[self.pre.mapf(v.ty, "get")(v.t, k)]))
 
     def construct(self, rec: RecTy, n: ast.Call, st: State) -> V:
+        if self.in_comprehension:
+            raise Unsupported(f"construction of a {rec.name} object inside a comprehension", n)
+        return self._construct(rec, n, st)
+
+    def _construct(self, rec: RecTy, n: ast.Call, st: State) -> V:
         """`Cls(args)` for a class whose __init__ is under contract: a fresh reference, distinct from every object of that
         class reachable (one level) from the variables in scope, then the contract of __init__ (its `modifies` must come with
         frame clauses for the other objects)."""
@@ -1728,6 +1752,57 @@ class Engine:
         c = self.contracts[f"{rec.name}.__init__"]
         self.call_contract(c, n, st, r)
         return r
+
+    def find_inlinable(self, name: str) -> Optional[ast.FunctionDef]:
+        """A module-level function of the file being verified that has no contract and whose body is a single `return <expr>`
+        (after the docstring): such a helper is expanded at the call site (it has no loops, no state, no early exits)."""
+        rel = getattr(self, "cur_relpath", None)
+        if rel is None or rel not in getattr(self, "sources", {}):
+            return None
+        _, mod = self.sources[rel]
+        for d in mod.body:
+            if isinstance(d, ast.FunctionDef) and d.name == name:
+                body = [x for x in d.body if not (isinstance(x, ast.Expr) and isinstance(x.value, ast.Constant))]
+                if len(body) == 1 and isinstance(body[0], ast.Return) and body[0].value is not None and not d.decorator_list \
+                        and not d.args.vararg and not d.args.kwarg and not d.args.kwonlyargs:
+                    return d
+        return None
+
+    def inline_helper(self, fd: ast.FunctionDef, n: ast.Call, st: State) -> V:
+        depth = getattr(self, "_inline_depth", 0)
+        if depth > 3:
+            raise Unsupported(f"helper {fd.name}: inlining too deep (recursive?)", n)
+        params = [a.arg for a in fd.args.args]
+        dflt = [None] * (len(params) - len(fd.args.defaults)) + list(fd.args.defaults)
+        vals: dict[str, V] = {}
+        for p, a in zip(params, n.args):
+            vals[p] = self.expr(a, st)
+        for kw in n.keywords:
+            if kw.arg not in params:
+                raise Unsupported(f"helper {fd.name}: unknown keyword {kw.arg}", n)
+            vals[kw.arg] = self.expr(kw.value, st)
+        for p, d in zip(params, dflt):
+            if p not in vals:
+                if d is None:
+                    raise Unsupported(f"helper {fd.name}: missing argument {p}", n)
+                vals[p] = self.expr(d, State())
+        for a in fd.args.args:   # coerce to annotated types where possible (empty literals etc.)
+            if a.annotation is not None:
+                try:
+                    vals[a.arg] = self.coerce(vals[a.arg], self.tenv.parse(a.annotation))
+                except Unsupported:
+                    pass
+        saved_env = st.env
+        st.env = dict(vals)      # the helper sees only its parameters (plus module-level names resolved as usual)
+        self._inline_depth = depth + 1
+        try:
+            ret = [x for x in fd.body if isinstance(x, ast.Return)][0]
+            v = self.expr(ret.value, st)  # type: ignore[arg-type]
+        finally:
+            st.env = saved_env
+            self._inline_depth = depth
+        self.dropped.append(f"{self.cur_func}: call of the un-contracted single-return helper `{fd.name}` expanded at the call site")
+        return v
 
     def ty_family(self, ty: Ty) -> str:
         if isinstance(ty, SeqTy):
@@ -1766,7 +1841,7 @@ class Engine:
                             pats.append(self.expr(pe, st2).t)
         finally:
             self.trigger_mode = False
-        q = z3.ForAll(bvs, body, patterns=pats) if universal else z3.Exists(bvs, body)
+        q = (self.forall_pat(bvs, body, pats) if pats else z3.ForAll(bvs, body)) if universal else z3.Exists(bvs, body)
         return V(q, BOOL)
 
     # spec functions -----------------------------------------------------------
@@ -1940,7 +2015,15 @@ class Engine:
         for exc, txt in c.raises.items():
             cond = self.clause(txt, cst)
             w = What(f"{c.name} raises {exc}")
-            w.heap = dict(st.heap)  # a call that raises leaves the state as it was (the declared exceptions are atomic failures)
+            if c.trusted or c.atomic_raises or not c.modifies:
+                w.heap = dict(st.heap)  # the declared exception is an atomic failure: the state is as it was at the call
+            else:
+                hv = dict(st.heap)      # otherwise everything the callee may write is unknown on the exceptional path
+                for hk in c.modifies:
+                    rname, fname = hk.split(".")
+                    _, srt = self.pre.field(self.tenv.records[rname], fname)
+                    hv[hk] = self.pre.fresh(f"Hx.{hk}", srt)
+                w.heap = hv
             self.pending_raises.append((list(st.pc), cond, exc, w))
             st.pc.append(z3.Not(cond))
         # 3. frame: havoc what the callee may modify
